@@ -98,6 +98,8 @@ def r_simple(s):
         return ':' + name + '(' + ', '.join(css_string(t) for t in s[2]) + ')'
     if k == 'custom':
         return ':--' + s[1]
+    if k == 'amp':
+        return '&'
     raise ValueError(s)
 
 
